@@ -19,7 +19,7 @@ static unsigned long long vh_next(void) {
     if (!vh_in) {
         const char* p = getenv("VH_INPUT");
         vh_in = fopen(p ? p : "inputs.txt", "r");
-        if (!vh_in) { fprintf(stderr, "REPLAY: no input vector\n"); exit(78); }
+        if (!vh_in) { fprintf(stderr, "REPLAY: no input vector\n"); _Exit(78); }
     }
     if (fscanf(vh_in, "%llx", &v) != 1) { v = 0; }
     return v;
@@ -28,10 +28,10 @@ static uint8_t nd8(void) { uint8_t v = (uint8_t)vh_next(); return v; }
 static uint16_t nd16(void) { uint16_t v = (uint16_t)vh_next(); return v; }
 static uint32_t nd32(void) { uint32_t v = (uint32_t)vh_next(); return v; }
 static uint64_t nd64(void) { uint64_t v = (uint64_t)vh_next(); return v; }
-#define V_ASSERT(c, d) do { if (!(c)) { printf("REPLAY-ASSERT-FAIL: %s\n", d); fflush(stdout); exit(1); } } while (0)
-#define V_ASSUME(c) do { if (!(c)) { printf("REPLAY-ASSUME-FAIL: %s\n", #c); fflush(stdout); exit(77); } } while (0)
+#define V_ASSERT(c, d) do { if (!(c)) { printf("REPLAY-ASSERT-FAIL: %s\n", d); fflush(stdout); _Exit(1); } } while (0)
+#define V_ASSUME(c) do { if (!(c)) { printf("REPLAY-ASSUME-FAIL: %s\n", #c); fflush(stdout); _Exit(77); } } while (0)
 #define V_WITNESS(d) do { } while (0)
-#define V_STOP() exit(0)
+#define V_STOP() do { fflush(stdout); _Exit(0); } while (0)
 #ifndef VH_NO_MAIN
 void harness(void);
 int main(void) { harness(); printf("REPLAY-END: harness returned without a failed assertion\n"); return 0; }
